@@ -1,5 +1,5 @@
 """COMMIT — who may advance RaftLog.committed, and through which argument (DESIGN §5.1)."""
-from ..engine import obligation, require, fn_name
+from ..engine import obligation, require, fn_name, call_args
 from ..an import show
 from ..pat import ANY, V, match, call, fld, alt
 from ..pg import implies, show_lit
@@ -186,6 +186,23 @@ def commit_advance(cx):
             continue
         cx.bad(key, "unrecognised commit advance: commit_to(%s) matches none of TERM-MATCHED / PREFIX-MATCHED / HEARTBEAT / SNAP-MATCHED" % show(to), s, arg=show(to))
 
+    # ---- a function that stores its index parameter into `committed` itself (the advancing half of commit_to spliced
+    # into maybe_commit): the same TERM-MATCHED obligation, at the store
+    for s in cx.prog.writes.get(COMMITTED, []):
+        if s.fn is commit_to or "stmt" not in s.data or s.kind != "write":
+            continue
+        to = write_value(cx, s)
+        if to[0] != "param" or s.fn.impl_adt is None or not s.fn.impl_adt.endswith("RaftLog"):
+            continue
+        key = cx.site_key(s, "store:committed")
+        def acc_term2(l, to=to):
+            r = term_is(prog, l)
+            return r is not None and r[1] == to and r[2][0] == "param" and r[2] != to
+        ok = require(cx, s, key, "TERM-MATCHED: committed := %s needs log.term(%s) == <term parameter> on every path" % (show(to), show(to)), acc_term2)
+        if ok:
+            seen_idioms.add("TERM-MATCHED")
+            _check_term_matched_callers(cx, s.fn, to, seen_idioms)
+
     # ---- RaftLog::restore (SNAP-INSTALL)
     lrestore = cx.fn("RaftLog::restore")
     for s in _callers_of(cx, lrestore):
@@ -250,6 +267,22 @@ def _check_term_matched_callers(cx, f, idx_param, seen_idioms):
                 cx.check(ok, key, "MSG-TERM-MATCHED: (m.index, m.term) is a commit pair only in the MsgReadIndexResp arm", s, args=[show(idx), show(term)])
                 if ok:
                     seen_idioms.add("MSG-TERM-MATCHED")
+                continue
+        if idx[0] == "param" and term is not None and term[0] == "param" and s.fn.vis != "Public":
+            # the pair is handed down by a private caller (`commit_by_vote(commit, commit_term)`): decided at its call sites
+            ups = _callers_of(cx, s.fn)
+            okp = bool(ups)
+            for cc in ups:
+                a2 = call_args(cx, cc)
+                i2, t2 = a2[idx[1] - 1], a2[term[1] - 1]
+                okp = okp and i2[0] == "field" and t2[0] == "field" and i2[1] == t2[1] and (i2[2], t2[2]) == ("Message.commit", "Message.commit_term") and is_param_of_adt(cc.fn, i2[1], "Message")
+            if okp:
+                cx.ok(key, "MSG-TERM-MATCHED: (m.commit, m.commit_term) of one received message, handed down by %s" % ", ".join(sorted({fn_name(c_.fn) for c_ in ups})), s, args=[show(idx), show(term)])
+                seen_idioms.add("MSG-TERM-MATCHED")
+                from .vote import STATE, is_f as _isf
+                def not_leader2(l):
+                    return (l[0] == "in" and _isf(l[1], STATE) and "Leader" not in l[2]) or (l[0] == "notin" and _isf(l[1], STATE) and "Leader" in l[2])
+                require(cx, s, key + ":not-leader", "the commit info carried by a vote message is adopted only by a node that is not the leader", not_leader2, kill=False)
                 continue
         cx.bad(key, "unrecognised (index, term) source for a term-matched commit: (%s, %s)" % (show(idx), show(term) if term else "?"), s)
 
